@@ -64,6 +64,12 @@ Theorem C04_borrowed_buffer_protected : forall n sched s c p,
   Mach.live s = true /\ (Mach.refs (Mach.getth s p) > 0)%nat
   /\ forall q, Mach.excl (Mach.getth s q) = false /\ Mach.mustfree (Mach.getth s q) = false.
 Proof. exact borrowed_buffer_protected. Qed.
+(* the code a borrower runs on &handle is one event per call (as_str / as_bytes: a read; clone: a relaxed increment):
+   both are enabled in every invariant state while the loan lasts, and never an error (C04_invariant) *)
+Theorem C04_borrower_operations_enabled : forall s c,
+  Inv.Inv s -> (c < length (Mach.ths s))%nat -> Mach.started (Mach.getth s c) = true -> Mach.lend (Mach.getth s c) <> 0%nat ->
+  (exists s', Mach.step s c AReadB = Mach.Ok s') /\ (exists s', Mach.step s c ACloneB = Mach.Ok s').
+Proof. intros s c I Hc Hst Hl. split; [exact (borrower_read_enabled s c I Hc Hst Hl)|exact (borrower_clone_enabled s c I Hc Hst Hl)]. Qed.
 Example C04_lending_example :
   (exists s, Mach.run (Mach.init 2) [(0,ALend 1);(1,AReadB);(1,ACloneB);(0,ARead);(1,ARead);(1,ARelease);(0,AJoinB 1);
                                      (0,AProbe 0);(0,AWrite);(0,ARelease);(0,Mach.AFence);(0,AReadM);(0,AFree)]%nat
@@ -186,6 +192,7 @@ Print Assumptions C04_write_excludes_others.
 Print Assumptions C04_free_excludes_holders.
 Print Assumptions C04_no_interference_while_held.
 Print Assumptions C04_borrowed_buffer_protected.
+Print Assumptions C04_borrower_operations_enabled.
 Print Assumptions C04_lending_example.
 Print Assumptions C04_clone_respects_protocol.
 Print Assumptions C04_drop_respects_protocol.
